@@ -1191,6 +1191,13 @@ func (m *Matcher) checkRawLen(st state, wp, rp *Prim, wfr, rfr *frame) {
 	if carried, ok := st.e.wcount[k]; ok && rkey != nil && carried == rkey {
 		return
 	}
+	// the length comes from a helper that performs the read itself (in.readCount(w) returning one of
+	// two reads): the read that was bound on this joint path
+	if carried, ok := st.e.wcount[k]; ok {
+		if rk2 := m.readerKeySt(st, rfr, rp.LenArg, carried); rk2 != nil && rk2 == carried {
+			return
+		}
+	}
 	// length kept in a field: the reader uses the field it just read where the writer emitted the same
 	// field before the bytes (object invariant size-field == len(bytes) assumed), or a field that is
 	// not part of this codec at all (framing carried out of band, e.g. the UDP header length)
